@@ -121,6 +121,28 @@ def worker(chk, wi, nw):
             v = digest(chk, stats, laws, 'model', None, {'kind': 'request', 'steps': [step]})
             if v:
                 stats.violations.append({'descriptor': v[0], 'what': v[1], 'case': v[2]})
+    if wi == 1 % nw:
+        # several documents alive in one process: equal() across them (string constants live in per-document tables)
+        def strdoc(words):
+            decl = ' '.join('const string s%d = "%s";' % (k, w) for k, w in enumerate(words)) + ' const int k0 = %d; int v0;' % len(words[0])
+            return ('<nta><declaration>%s</declaration><template><name>P</name><location id="id0"><name>L0</name></location><init ref="id0"/>'
+                    '<transition><source ref="id0"/><target ref="id0"/><label kind="guard">v0 == k0 + %d</label></transition></template><system>system P;</system></nta>') % (decl, len(words))
+        docs = [strdoc(['north', 'red', 'green']), strdoc(['south', 'blue', 'black']), strdoc(['north', 'green', 'red']), strdoc(['east']), strdoc(['south', 'blue', 'black'])]
+        steps = [dict(entry='xml-buffer', builder='document', newxta=1, input=x, dump='none', actions='laws', law_cross=1) for x in docs]
+        r = orc.request(steps)
+        if 'crash' in r:
+            stats.violations.append({'descriptor': {'law': 'crash:' + oracle.crash_descriptor(r['crash'])['kind'], 'root': 'cross-document'}, 'what': r['crash'].get('stderr', '')[:1500],
+                                     'case': {'kind': 'request', 'steps': steps}})
+        else:
+            for s in r['steps']:
+                laws = s['laws']
+                stats.extra['cross_document_pairs'] += laws.get('cross_document_pairs', 0)
+                stats.case('cross-document:' + str(laws.get('cross_document_pairs')), nontrivial=laws.get('cross_document_pairs', 0) > 0, classes=['source:cross-document'],
+                           sample={'source': 'several documents in one process', 'pairs': laws.get('cross_document_pairs')})
+                v = digest(chk, stats, laws, 'model', None, {'kind': 'request', 'steps': steps})
+                if v:
+                    stats.violations.append({'descriptor': v[0], 'what': v[1], 'case': v[2]})
+                    break
     common.run_hypothesis(chk, stats, st.tuples(M.models(), NOISE), model_test, 60 if quick else 1500, chk.seed * 1000 + wi)
     forms = Q.query_forms()
     for k, (name, (flavour, strat)) in enumerate(sorted(forms.items())):
